@@ -2,7 +2,7 @@
    classes, and the explicit-continuation statement machine that lets generator and async bodies
    suspend.  Written from ECMA-262 (13-15, 10.2, 27.5); every re-entrant step goes through [self]. *)
 From Coq Require Import ZArith NArith PArith List Bool String Floats.SpecFloat.
-From JSRef Require Import Float Syntax Values Static Ops.
+From JSRef Require Import Float Syntax Values Static Ops Promises.
 Import ListNotations.
 Open Scope m_scope.
 
@@ -845,6 +845,83 @@ Definition gen_resume (gid : N) (r : resume) : M value :=
       end
   end.
 
+(* ---- async functions (27.7): the body is a coroutine like a generator's, its bottom frame [KAsyncDone pid]
+   settles the result promise; [await] suspends it on a promise whose reactions (kind 1) resume it from the job queue *)
+Definition await_value (gid : N) (v : value) : M unit :=
+  do pid <- promise_resolve self v;;
+  perform_then pid (Reaction (Some gid) VUndef false 1%N) (Reaction (Some gid) VUndef true 1%N).
+
+Definition async_resume (gid : N) (r : resume) : M unit :=
+  do g <- the_gen gid;;
+  match g_status g with
+  | GSuspendedStart | GSuspendedYield =>
+      let start := match g_status g with GSuspendedStart => true | _ => false end in
+      let comp := match r with
+                  | RNext v => CNormal (if start then None else Some v)
+                  | RThrowIn v => CThrow v
+                  | RReturnIn v => CReturn v end in
+      do _ <- put_gen gid {| g_status := GExecuting; g_frames := []; g_ctx := g_ctx g; g_async := true |};;
+      do m <- o_run self (g_frames g) comp (g_ctx g);;
+      match m with
+      | MAwait v k c' =>
+          do _ <- put_gen gid {| g_status := GSuspendedYield; g_frames := k; g_ctx := c'; g_async := true |};;
+          await_value gid v
+      | MDone _ => put_gen gid {| g_status := GCompleted; g_frames := []; g_ctx := g_ctx g; g_async := true |}
+      | MYield _ _ _ _ => unsupported 961%N
+      end
+  | _ => unsupported 965%N
+  end.
+
+(* start an async function whose declarations have been instantiated in [cb]: returns the result promise object *)
+Definition async_start (f : func) (cb : ctx) : M value :=
+  do pp <- new_promise L_PromiseProto;;
+  let body := match f_expr_body f with Some e => [SReturn (Some e)] | None => f_body f end in
+  do gid <- new_gen {| g_status := GSuspendedStart; g_frames := [KSeq body None; KAsyncDone (fst pp)]; g_ctx := cb; g_async := true |};;
+  do _ <- async_resume gid (RNext VUndef);;
+  ret (VObj (snd pp)).
+
+(* ---- jobs (27.2.2): NewPromiseReactionJob / NewPromiseResolveThenableJob *)
+Definition run_job (j : job) : M unit :=
+  match j with
+  | JReaction (Reaction derived handler is_reject kind) arg =>
+      if N.eqb kind 1 then
+        match derived with
+        | Some gid => async_resume gid (if is_reject then RThrowIn arg else RNext arg)
+        | None => ret tt end
+      else
+        match handler with
+        | VUndef =>
+            match derived with
+            | Some d => if is_reject then reject_promise d arg else resolve_promise self d arg
+            | None => ret tt end
+        | _ =>
+            fun st =>
+              match o_call self handler VUndef [arg] st with
+              | ROk r st1 => (match derived with Some d => resolve_promise self d r | None => ret tt end) st1
+              | RThrow e st1 => (match derived with Some d => reject_promise d e | None => ret tt end) st1
+              | RFuel => RFuel
+              | RUnsupported c => RUnsupported c
+              end
+        end
+  | JResolveThenable pid thenable thenfn =>
+      do fns <- create_resolving pid;;
+      catchm (do _ <- o_call self thenfn thenable [fst fns; snd fns];; ret tt)
+             (fun e => do _ <- o_call self (snd fns) VUndef [e];; ret tt)
+  end.
+
+(* drain the job queue, first in first out; jobs enqueued by a job run after the ones already waiting *)
+Definition run_jobs : M unit :=
+  (fix go (fuel : nat) : M unit :=
+     match fuel with
+     | O => fun _ => RFuel
+     | Datatypes.S f =>
+         do st <- get_state;;
+         match jobs st with
+         | [] => ret tt
+         | j :: t => do _ <- put_state (with_jobs st t);; do _ <- run_job j;; go f
+         end
+     end) LOOP_FUEL.
+
 (* ---- calls *)
 Definition ordinary_this (strict : bool) (tv : value) : M value :=
   if strict then ret tv else
@@ -885,7 +962,7 @@ Definition call_closure (fo : loc) (fidx : nat) (env : envref) (cls : option nat
     do gid <- new_gen {| g_status := GSuspendedStart; g_frames := [KSeq (f_body f) None]; g_ctx := cb; g_async := false |};;
     do gl <- new_obj (Some proto) (OGenerator gid) [];;
     ret (VObj gl, fenv)
-  else if is_async_kind (f_kind f) then unsupported 964%N
+  else if is_async_kind (f_kind f) then do pv <- async_start f cb;; ret (pv, fenv)
   else do v <- run_body f cb;; ret (v, fenv).
 
 End WithSelf.
